@@ -270,6 +270,126 @@ def restart_with_real_poller(ctx):
             ctx.fail(what, j, kind="history", tag=tag)
 
 
+def poll_in_flight(ctx):
+    """Shutdown while a poll is in flight (the normal case for a LONG poll): after shutdown has returned no further poll is started,
+    however the one in flight ends (real LongPoll and its timer; the channel is a double that holds each poll open for a while)."""
+    import time as _t
+    import deep.api.deep as api
+    import deep.poll.poll as poll_mod
+    from deep.config.config_service import ConfigService
+    from deep.config.tracepoint_config import TracepointConfigService
+    from deepproto.proto.poll.v1.poll_pb2 import PollResponse, ResponseType
+    started_at, in_flight = [], threading.Event()
+
+    class Stub:
+        def __init__(self, channel):
+            pass
+
+        def poll(self, request, metadata=None):
+            started_at.append(_t.monotonic())
+            in_flight.set()
+            _t.sleep(0.25)
+            return PollResponse(ts_nanos=1, current_hash="", response_type=ResponseType.NO_CHANGE)
+    saved = poll_mod.PollConfigStub, api.load_plugins
+    poll_mod.PollConfigStub = Stub
+    api.load_plugins = lambda config, custom=None: []
+    old_sys, old_thr = sys.gettrace(), threading.gettrace()
+    try:
+        cfg = ConfigService({"APP_ROOT": "/app", "SERVICE_URL": "localhost:1", "POLL_TIMER": 0.1, "NO_TRACE": True},
+                            tracepoints=TracepointConfigService())
+        d = api.Deep(cfg)
+        d.grpc.start = lambda: None
+        d.grpc.metadata = lambda: []
+        d.start()                               # the initial poll, then the timer
+        del started_at[:]
+        in_flight.clear()
+        reached = in_flight.wait(3.0)           # a timer poll is in flight now
+        outcome = None
+        try:
+            d.shutdown()
+        except BaseException as e:
+            outcome = e
+        t_down = _t.monotonic()
+        _t.sleep(0.9)
+        late = [round(t - t_down, 2) for t in started_at if t > t_down]
+        j = dict(history="start; a timer poll is in flight (held 0.25 s, interval 0.1 s); shutdown; wait 0.9 s",
+                 polls_started_after_shutdown_returned=late)
+        ctx.case(j, nontrivial=True, bucket="poll-in-flight")
+        if not reached:
+            ctx.skip("no timer poll was started within 3 s: the schedule could not be set up")
+        elif outcome is not None:
+            ctx.fail("shutdown raised %r while a poll was in flight" % (outcome,), j, kind="schedule", tag="poll-in-flight-raised")
+        elif late:
+            ctx.fail("%d polls were started after shutdown had returned (%s s after it): the agent does not stop polling" % (len(late), late), j,
+                     kind="schedule", tag="polls-after-shutdown")
+    finally:
+        poll_mod.PollConfigStub, api.load_plugins = saved
+        sys.settrace(old_sys)
+        threading.settrace(old_thr)
+
+
+def failed_start(ctx):
+    """A start that FAILS (the channel cannot be created: a service address that is not text, given in code; or the transport raising)
+    leaves nothing behind: after it - and after the shutdown a careful application still calls - the process has exactly the trace
+    hooks it had before, and a later start / shutdown of the same agent works and restores them again."""
+    import deep.api.deep as api
+    from deep.config.config_service import ConfigService
+    from deep.config.tracepoint_config import TracepointConfigService
+    saved_load = api.load_plugins
+    api.load_plugins = lambda config, custom=None: []
+    old_sys, old_thr = sys.gettrace(), threading.gettrace()
+    try:
+        for how in ("SERVICE_URL=5 given in code", "the transport raises ConnectionError"):
+            cfg = ConfigService({"APP_ROOT": "/app", "SERVICE_URL": 5 if how.startswith("SERVICE_URL") else "localhost:1", "POLL_TIMER": 3600,
+                                 "SERVICE_SECURE": "False"}, tracepoints=TracepointConfigService())
+            d = api.Deep(cfg)
+            d.poll = type("Poll", (), {"start": lambda self: None, "shutdown": lambda self: None})()
+            real_grpc_start = d.grpc.start
+            if not how.startswith("SERVICE_URL"):
+                def refuse():
+                    raise ConnectionError("service unreachable")
+                d.grpc.start = refuse
+            sys.settrace(host_a)
+            threading.settrace(host_b)
+            raised = None
+            try:
+                d.start()
+            except BaseException as e:
+                raised = e
+            after_start = (hook_no(sys.gettrace(), d.trigger_handler.trace_call), hook_no(threading.gettrace(), d.trigger_handler.trace_call))
+            try:
+                d.shutdown()
+            except BaseException as e:
+                raised = ("shutdown", e)
+            after_shutdown = (sys.gettrace() is host_a, threading.gettrace() is host_b)
+            j = dict(history="hooks host_a / host_b; start fails (%s); shutdown" % how, start_raised=repr(raised),
+                     hooks_after_failed_start=after_start, host_hooks_back_after_shutdown=after_shutdown)
+            ctx.case(j, nontrivial=True, bucket="failed-start")
+            if raised is None:
+                ctx.skip("start did not fail with %s: nothing to examine" % how)
+            elif after_shutdown != (True, True):
+                ctx.fail("start failed (%r); after the following shutdown the trace hooks are %r, before start they were (host_a, host_b): "
+                         "the agent's hook stays installed for good" % (raised, after_start), j, kind="history", tag="failed-start-hooks")
+            else:
+                # the same agent, the fault gone: a normal cycle
+                d.grpc.start = lambda: None
+                try:
+                    d.start()
+                    ok_started = d.started and sys.gettrace() is not host_a
+                    d.shutdown()
+                except BaseException as e:
+                    ctx.fail("after a failed start, a later start / shutdown of the same agent raised %r" % (e,), j, kind="history",
+                             tag="failed-start-restart")
+                    continue
+                if not ok_started or sys.gettrace() is not host_a or threading.gettrace() is not host_b:
+                    ctx.fail("after a failed start, a later start / shutdown cycle: started and tracing=%s, hooks restored=%s" % (
+                        ok_started, (sys.gettrace() is host_a, threading.gettrace() is host_b)), j, kind="history", tag="failed-start-restart")
+    finally:
+        sys.settrace(old_sys)
+        threading.settrace(old_thr)
+        api.load_plugins = saved_load
+
+
 def e2_clear():
     from deep.thread_local import ThreadLocal
     ThreadLocal._ThreadLocal__store.clear()
@@ -305,6 +425,8 @@ def run(ctx):
         cj.append(j)
     ctx.correspond("lifecycle", IMPORTS, "life_case", "check_life_case", lits, cj, shard=100)
     restart_with_real_poller(ctx)
+    poll_in_flight(ctx)
+    failed_start(ctx)
 
 
 def replay(ctx, data):
